@@ -283,8 +283,8 @@ Section Measures.
   Definition euclidean_d (d : list E) : E := sqrtf (nsum N (map (fun a => mul N a a) d)).
 End Measures.
 
-Arguments support {N A}. Arguments values {N A}. Arguments ess_minimum {N A}. Arguments ess_maximum {N A}.
-Arguments ess_ptp {N A}. Arguments kept {N A}. Arguments expectation {N A}. Arguments expected_moment {N A}.
+Arguments support N {A}. Arguments values N {A}. Arguments ess_minimum N {A}. Arguments ess_maximum N {A}.
+Arguments ess_ptp N {A}. Arguments kept N {A}. Arguments expectation N {A}. Arguments expected_moment N {A}.
 
 (* ---- execution helper for the correspondence: a square root on Q that is exact on squares of rationals and
    otherwise accurate to 2^-64 relative (floor of the scaled integer root) *)
